@@ -365,3 +365,179 @@ Definition nav_step (fprev f : filters) (active : bool) (health : list nat) (msg
     let filtered' := if active' then filter_client_txs f' health msgs ps else filtered in
     (filtered', filter_cursor active' filtered' len cur cur true)
   end.
+
+(* ------------------------------------------------------------------ several clients *)
+
+(* Everything below was added for the several-clients part of C16: one
+   debugger holds a store, a filter view and a cursor PER CLIENT, one set of
+   filter flags and one "last scrolled" time for all of them.
+
+     ClientMsgState (one message, TailMode off)          -> arrive
+     ToggleTool of a tx filter -> ToolToggledState        -> dbg_step (EToggle f)
+     SelectingClientEnter + SelectingClientState          -> dbg_step (ESelect who)
+     hScrollToTime / the "scroll to the last one" branch  -> select_cursor
+     hSetCursor1 (the lastScrolledTxTime bookkeeping)     -> scrolled_time *)
+
+(* hCurrentTx() != nil *)
+Definition on_record (len : nat) (c : Z) : bool := Z.ltb 0 c && Z.leb c (Z.of_nat len).
+
+(* hSetCursor1: `tx := hCurrentTx()` is read BEFORE the cursor moves;
+   lastScrolledTxTime is zeroed and set to the time of the new current record
+   only when there was a current record before. 0 = the zero time (receive
+   times are >= 1). *)
+Definition scrolled_time (msgs : list msg) (before after : Z) : N :=
+  if on_record (length msgs) before && on_record (length msgs) after
+  then m_htime (nth (Z.to_nat (after - 1)) msgs dmsg)
+  else 0%N.
+
+(* where a command asks hSetCursor1 to go: None when its Enter handler
+   rejects it (FwdEnter / BackEnter / ScrollToTxEnter). The flag is
+   A.FilterBack. ToolToggledState re-applies the current cursor. *)
+Definition nav_target (msgs : list msg) (cur : Z) (c : nav_cmd) : option (Z * bool) :=
+  let lenz := Z.of_nat (length msgs) in
+  match c with
+  | NFwd amount =>
+    let a := Z.max amount 1 in
+    if Z.leb (cur + a) lenz then Some (cur + a, false)%Z else None
+  | NBack amount =>
+    let a := Z.max amount 1 in
+    if Z.leb 0 (cur - a) then Some (cur - a, true)%Z else None
+  | NScroll c1 => if Z.ltb 0 c1 && Z.leb c1 lenz then Some (c1, false) else None
+  | NScrollId id =>
+    let i := tx_index msgs id in
+    if Z.ltb (-1) i then Some (i + 1, false)%Z else None
+  | NRefilter => Some (cur, true)
+  end.
+
+(* the cursor SelectingClientState leaves on the newly selected client
+   (TailMode off). filtered = its view after hFilterClientTxs, cur = the
+   cursor it had when it was selected last (0: never), last =
+   lastScrolledTxTime. hScrollToTime passes the INDEX TxAtHTime returns as a
+   1-based cursor (so the record before the one found is shown) through
+   hFilterTxCursor1 and then through hSetCursor1, which filters again; an
+   empty store scrolls "to the last one": cursor 0. *)
+Definition select_cursor (active : bool) (filtered : list nat) (msgs : list msg) (cur : Z)
+    (last : N) : Z :=
+  let len := length msgs in
+  let i := tx_at_htime msgs last in
+  if Z.eqb i (-1) then filter_cursor active filtered len cur (Z.of_nat len) true
+  else
+    let c1 := filter_cursor active filtered len cur i true in
+    filter_cursor active filtered len cur c1 true.
+
+Record client := mkClient {
+  c_msgs : list msg;          (* MsgTxs *)
+  c_parsed : list parsed;     (* MsgTxsParsed *)
+  c_filtered : list nat;      (* MsgTxsFiltered *)
+  c_cursor : Z                (* CursorTx1 *)
+}.
+
+Definition client0 : client := mkClient [] [] [] 0%Z.
+
+(* two connected clients; d_sel = false: the first one is Debugger.C *)
+Record dbg := mkDbg {
+  d_sel : bool;
+  d_a : client;
+  d_b : client;
+  d_flags : filters;          (* the Filter* states *)
+  d_last : N                  (* lastScrolledTxTime *)
+}.
+
+Definition dbg_init (f : filters) : dbg := mkDbg false client0 client0 f 0%N.
+
+Definition get_client (d : dbg) (who : bool) : client := if who then d_b d else d_a d.
+Definition sel_client (d : dbg) : client := get_client d (d_sel d).
+
+Definition set_client (d : dbg) (who : bool) (c : client) : dbg :=
+  if who then mkDbg (d_sel d) (d_a d) c (d_flags d) (d_last d)
+  else mkDbg (d_sel d) c (d_b d) (d_flags d) (d_last d).
+
+(* ClientMsgState, one message of one client, TailMode off: appended, parsed
+   (p = the record hParseMsg derives; a parameter here, so that what is
+   proved holds whatever it derives), filtered ONCE with the flags of that
+   moment against the messages received so far. Whoever is selected. *)
+Definition arrive (f : filters) (health : list nat) (c : client) (m : msg) (p : parsed) : client :=
+  let msgs := c_msgs c ++ [m] in
+  let ps := c_parsed c ++ [p] in
+  let idx := length (c_msgs c) in
+  mkClient msgs ps
+           (if filter_tx f health msgs ps idx then c_filtered c ++ [idx] else c_filtered c)
+           (c_cursor c).
+
+Inductive event :=
+| EArrive (who : bool) (m : msg) (p : parsed)   (* ClientMsg *)
+| EToggle (f : filters)       (* ToggleTool of a tx filter; f = the flags after the command (decided by
+                                 the debugger's own state machine) *)
+| ESelect (who : bool)        (* SelectingClient *)
+| ENav (c : nav_cmd).         (* UserFwd / UserBack / Fwd / Back / ScrollToTx on the selected client *)
+
+(* does the command reach hSetCursor1? *)
+Definition sets_cursor (d : dbg) (e : event) : bool :=
+  match e with
+  | EArrive _ _ _ => false
+  | EToggle _ => true
+  | ESelect who => negb (Bool.eqb who (d_sel d))
+  | ENav c => match nav_target (c_msgs (sel_client d)) (c_cursor (sel_client d)) c with
+              | Some _ => true
+              | None => false
+              end
+  end.
+
+(* a command on the selected client: nav_step, then the bookkeeping of
+   hSetCursor1 *)
+Definition on_selected (health : list nat) (d : dbg) (f' : filters) (c : nav_cmd) (moved : bool) : dbg :=
+  let cl := sel_client d in
+  let '(fl, cu) := nav_step (d_flags d) f' (group_any f') health (c_msgs cl) (c_parsed cl)
+                            (c_filtered cl) (c_cursor cl) c in
+  let cl' := mkClient (c_msgs cl) (c_parsed cl) fl cu in
+  let last' := if moved then scrolled_time (c_msgs cl) (c_cursor cl) cu else d_last d in
+  let d' := set_client d (d_sel d) cl' in
+  mkDbg (d_sel d') (d_a d') (d_b d') f' last'.
+
+Definition dbg_step (health : list nat) (d : dbg) (e : event) : dbg :=
+  match e with
+  | EArrive who m p => set_client d who (arrive (d_flags d) health (get_client d who) m p)
+  | EToggle f' => on_selected health d f' NRefilter true
+  | ENav c => on_selected health d (d_flags d) c (sets_cursor d e)
+  | ESelect who =>
+    (* SelectingClientEnter: the same client is rejected *)
+    if Bool.eqb who (d_sel d) then d else
+    let cl := get_client d who in
+    let f := d_flags d in
+    let active := group_any f in
+    (* hFilterClientTxs: a full recomputation, unless no group filter is on *)
+    let fl := if active then filter_client_txs f health (c_msgs cl) (c_parsed cl) else c_filtered cl in
+    let cu := select_cursor active fl (c_msgs cl) (c_cursor cl) (d_last d) in
+    let cl' := mkClient (c_msgs cl) (c_parsed cl) fl cu in
+    let d' := set_client d who cl' in
+    mkDbg who (d_a d') (d_b d') f (scrolled_time (c_msgs cl) (c_cursor cl) cu)
+  end.
+
+Definition run_events (health : list nat) (d : dbg) (evs : list event) : dbg :=
+  fold_left (dbg_step health) evs d.
+
+(* what a history means for one client and for the flags *)
+Definition arrived (who : bool) (evs : list event) : list (msg * parsed) :=
+  flat_map (fun e => match e with
+                     | EArrive w m p => if Bool.eqb w who then [(m, p)] else []
+                     | _ => []
+                     end) evs.
+
+Definition flags_after (f0 : filters) (evs : list event) : filters :=
+  fold_left (fun f e => match e with EToggle f' => f' | _ => f end) evs f0.
+
+(* a toggle that switches FilterCanceledTx or FilterQueuedTx OFF is
+   re-filtered with the old FilterEmptyTx (refilter_flags) *)
+Definition plain_toggle (fprev f : filters) : bool :=
+  negb (f_canceled fprev && negb (f_canceled f)) && negb (f_queued fprev && negb (f_queued f)).
+
+(* histories on which the view of the selected client is a function of its
+   records and the flags alone: no message arrives while SkipAutoCanceledTx
+   is on (filter_live_sound_refuted), every toggle is a plain one *)
+Fixpoint tame_events (f : filters) (evs : list event) : bool :=
+  match evs with
+  | [] => true
+  | EArrive _ _ _ :: r => negb (f_autocanceled f) && tame_events f r
+  | EToggle f' :: r => plain_toggle f f' && tame_events f' r
+  | _ :: r => tame_events f r
+  end.
